@@ -222,6 +222,8 @@ def work(p):
     res = core.Res()
     d = core.scratch("c02")
     sys.path.insert(0, d)
+    if p.get("twin"):
+        twin_case(res)
     for spec in p["programs"]:
         rng = random.Random(spec["seed"])
         opts = {}
@@ -287,6 +289,38 @@ def specs(ck, n, ks, abandon_frac=0.1, values_frac=0.15):
     return out
 
 
+def twin_case(res):
+    """Identical functions in two modules (code objects equal up to the file name) must each get their own traces."""
+    from monkeytype.tracing import trace_calls
+
+    d = core.scratch("c02twin")
+    src = "class P:\n    pass\n\n\nclass Q:\n    pass\n\n\ndef helper(a):\n    return a\n\n\nclass K:\n    def m(self, a):\n        return [a]\n"
+    for n in ("vftwin_a", "vftwin_b"):
+        open(os.path.join(d, n + ".py"), "w").write(src)
+    sys.path.insert(0, d)
+    try:
+        import importlib
+
+        importlib.invalidate_caches()
+        a, b = importlib.import_module("vftwin_a"), importlib.import_module("vftwin_b")
+        lg = make_logger()
+        with trace_calls(lg, 0, lambda code: code.co_filename.startswith(d)):
+            a.helper(a.P())
+            b.helper(b.Q())
+            b.K().m(b.P())
+            a.K().m(a.Q())
+        got = [(t.func.__module__, t.func.__qualname__, {n: getattr(v, "__qualname__", str(v)) for n, v in t.arg_types.items() if n != "self"}) for t in lg.traces]
+        want = [("vftwin_a", "helper", {"a": "P"}), ("vftwin_b", "helper", {"a": "Q"}), ("vftwin_b", "K.m", {"a": "P"}), ("vftwin_a", "K.m", {"a": "Q"})]
+        res.count("evaluations")
+        res.count("twin_cases")
+        if got != want:
+            res.violation("identical-functions-in-two-modules-conflated", f"logged {got}, expected {want}", {"twin": True})
+    finally:
+        sys.path.remove(d)
+        sys.modules.pop("vftwin_a", None)
+        sys.modules.pop("vftwin_b", None)
+
+
 def pinned(prop):
     """Pinned witnesses of listed findings (findings/<prop>/*.json): executed first in both tiers."""
     d = os.path.join(core.VERIF, "findings", prop)
@@ -304,13 +338,14 @@ def run(ck):
     quick = ck.tier == "quick"
     sp = specs(ck, 2500 if quick else 40000, [0, 3] if quick else [0, 1, 3, 10])
     n = core.NPROC * (2 if quick else 16)
-    payloads = [{"programs": pinned("C02")}] + [{"programs": sp[i::n]} for i in range(n)]
+    payloads = [{"programs": pinned("C02"), "twin": True}] + [{"programs": sp[i::n]} for i in range(n)]
     for r in core.pmap("vf.props.c02:work", payloads, timeout=3400):
         ck.merge(r)
     ck.need("completions", 5000)
     ck.need("matched_must", 3000)
     ck.need("interleavings", 50, "fewer than 50 distinct interleaving orders of live frames")
     ck.need("control_runs", 20)
+    ck.need("twin_cases", 1)
     for ek in ("exception:plain", "const-return:plain", "return:plain", "return:generator", "const-return:generator", "exception:generator",
                "return:coroutine", "const-return:coroutine", "exception:coroutine"):
         ck.counters["exit:" + ek] = 1 if ek in ck.sets.get("exit_kinds", ()) else 0
